@@ -41,7 +41,13 @@ REQUIRED_CLASSES = (['fam:' + f for f in FAMILIES]
                        'hdr:blank', 'cell:str_blank', 'cell:numstr_blank', 'cell:zero', 'cell:empty',
                        'group:empty_in_row', 'group:empty_everywhere', 'row:empty_interior', 'sheet:not_first',
                        'sheet:odd_name', 'preset:explicit_left', 'preset:explicit_right',
-                       'element:elements.X', 'element:element.X'])
+                       'preset:explicit_left_zero', 'preset:explicit_right_zero',
+                       'element:elements.X', 'element:element.X', 'name:random_case',
+                       'name:random_case:statmech_model', 'num:near_integer:numstr']
+                    + ['name:random_case:' + h for h in ref.MODE_CLASSES]
+                    + ['preset:%s:zero_n_degrees' % p for p in PRESET_NAMES if p != 'idealgas']
+                    + ['num:%s:%s' % (k, f) for k in ('near_integer', 'big_fraction')
+                       for f in ('ordinary', 'vib_wavenumber', 'list', 'dict', 'nasa')])
 REQUIRED_PROBES = ['read_excel', 'set_element', 'set_formula', 'set_statmech_model', 'set_trans_model',
                    'set_vib_model', 'set_rot_model', 'set_elec_model', 'set_nucl_model',
                    'set_vib_wavenumbers', 'set_rot_temperatures', 'set_nasa_a_low', 'set_nasa_a_high',
@@ -58,8 +64,12 @@ ASSUMPTIONS = [
     'string cells are not blank-only, do not start with "=", are not one of pandas\' default NA markers, '
     'booleans or inf/nan spellings; string cells that spell a number may come back as that number or as '
     'the trimmed string (documentation silent) - both accepted',
-    'an int cell may come back as float / numpy scalar (compared numerically, |got-want| <= 1e-12*max(|got|,|want|), '
-    'no absolute floor; observed maximum on the unchanged tree is 0)',
+    'an int cell may come back as float / numpy scalar; number cells are compared EXACTLY (float(got) == '
+    'float(written value): generated floats have <= 16 significant digits, which openpyxl writes and reads back exactly), including floats within 1e-12..1e-9 relative of an '
+    'integer and numbers >= 5e8 with a fractional part; string cells that spell a number are compared with '
+    '|got-want| <= 2e-15*max(|got|,|want|) (pandas parses them; observed maximum reported as max_err X2)',
+    'EmptyMode and the statmech_model preset names are case-insensitive (the code lower-cases them; the '
+    'documentation spreadsheets write IdealGas, the table idealgas): any letter case is generated',
     'key "model" is optional when only per-mode model columns are filled; the bookkeeping keys '
     '"required"/"optional" of a preset are optional and their values are not asserted',
     'an explicit column wins over the same key of a preset wherever it stands',
@@ -67,7 +77,7 @@ ASSUMPTIONS = [
     'skiprows=None (absent); no other option is exercised',
 ]
 
-NUM_TOL = 1e-12
+NUM_TOL = 2e-15          # only for string cells that spell a number (parsed by pandas); number cells: exact
 _BAD_STRINGS = {'', '#n/a', '#n/a n/a', '#na', '-1.#ind', '-1.#qnan', '-nan', '1.#ind', '1.#qnan', '<na>',
                 'n/a', 'na', 'null', 'nan', 'none', 'true', 'false', 'inf', '-inf', 'infinity',
                 '-infinity', '+inf', '+infinity'}
@@ -114,21 +124,68 @@ def _word(rng):
     return 'word'
 
 
+_NEAR_REL = (1e-10, 3e-10, 1e-12)
+_BIG_FRAC = (0.25, 0.5, 0.75)
+
+
+def _x16(v):
+    """openpyxl writes numbers with 16 significant digits ('%.16g'); generated floats are made exactly
+    representable that way, so the spec value IS the value in the file and must come back bit-equal"""
+    return float('%.16g' % v) if isinstance(v, float) else v
+
+
+def _near_int(rng):
+    """a float close to, but not equal to, an integer (never 'round-off noise' to be removed)"""
+    k = float(rng.choice([1, 2, 3, 7, 100, 298, 1500, 3000, 4401, rng.randint(1, 4500), rng.randint(1, 10 ** 6)]))
+    r = rng.random()
+    if r < 0.25:
+        v = k * (1.0 + 2.0 ** -40)
+    elif r < 0.3:
+        v = k * (1.0 - 2.0 ** -40)
+    else:
+        v = k + rng.choice([-1.0, 1.0]) * k * rng.choice(_NEAR_REL)
+    v = _x16(v)
+    if v == round(v):                       # cannot happen for these k, but never emit an integer here
+        v = _x16(k * (1.0 + 2.0 ** -40))
+    return -v if rng.random() < 0.15 else v
+
+
+def _big_frac(rng):
+    """large number with an exactly representable fractional part (>= 5e8, .25/.5/.75)"""
+    v = float(rng.randint(5 * 10 ** 8, rng.choice([10 ** 9, 10 ** 10, 10 ** 12, 4 * 10 ** 13]))) + rng.choice(_BIG_FRAC)
+    return -v if rng.random() < 0.15 else v
+
+
+def _is_near_int(v):
+    if isinstance(v, bool) or not isinstance(v, float) or v != v or v in (float('inf'), float('-inf')):
+        return False
+    k = round(v)
+    return k != v and k != 0 and abs(v - k) <= 1e-9 * abs(k) and abs(v) < 5e8
+
+
+def _is_big_frac(v):
+    return isinstance(v, float) and abs(v) >= 5e8 and v != round(v)
+
+
 def _num(rng, kind=None):
-    kind = kind or rng.choice(['int', 'float', 'float', 'small', 'zero', 'neg'])
+    kind = kind or rng.choice(['int', 'float', 'float', 'small', 'zero', 'neg', 'nearint', 'bigfrac'])
+    if kind == 'nearint':
+        return _near_int(rng)
+    if kind == 'bigfrac':
+        return _big_frac(rng)
     if kind == 'int':
         return rng.randint(-5, 4000)
     if kind == 'float':
         return round(rng.uniform(0.0, 4500.0), rng.choice([1, 3, 6]))
     if kind == 'small':
-        return float('%.6e' % (rng.uniform(-9, 9) * 10.0 ** rng.randint(-14, -2)))
+        return _x16(float('%.6e' % (rng.uniform(-9, 9) * 10.0 ** rng.randint(-14, -2))))
     if kind == 'zero':
         return rng.choice([0, 0.0])
     return round(-rng.uniform(0.0, 700.0), 4)
 
 
 def _numstr(rng):
-    v = _num(rng, rng.choice(['int', 'float', 'neg']))
+    v = _num(rng, rng.choice(['int', 'float', 'neg', 'nearint']))
     s = repr(v)
     return ' ' * rng.randint(0, 2) + s + ' ' * rng.randint(1, 2)
 
@@ -180,15 +237,40 @@ _CAMEL = {'idealgas': 'IdealGas', 'harmonic': 'Harmonic', 'electronic': 'Electro
           'placeholder': 'Placeholder', 'constant': 'Constant'}
 
 
+def _rand_case(rng, s):
+    """the documented names are case-insensitive: any letter case must work"""
+    r = rng.random()
+    if r < 0.25:
+        return s.upper()
+    if r < 0.4:
+        return s.lower().capitalize()
+    if r < 0.55:
+        return s[0].lower() + s[1:]
+    for _ in range(20):
+        t = ''.join(c.upper() if rng.random() < 0.5 else c.lower() for c in s)
+        if t not in (s, s.lower()):
+            return t
+    return s.upper()
+
+
 def _preset_name(rng, p=None):
     p = p or rng.choice(PRESET_NAMES)
-    return rng.choice([p, _CAMEL[p]])
+    r = rng.random()
+    if r < 0.35:
+        return p
+    if r < 0.7:
+        return _CAMEL[p]
+    return _rand_case(rng, _CAMEL[p])
 
 
 def _mode_name(rng, header, name=None):
-    name = name or rng.choice(MODE_NAMES[header])
-    if name == 'EmptyMode' and rng.random() < 0.3:
-        return 'emptymode'
+    name = name or rng.choice(MODE_NAMES[header] + ['EmptyMode'])
+    if name == 'EmptyMode':
+        r = rng.random()
+        if r < 0.25:
+            return 'emptymode'
+        if r < 0.6:
+            return _rand_case(rng, 'EmptyMode')
     return name
 
 
@@ -227,6 +309,11 @@ def _build(rng, nrows, fams, opts=None):
         gid[0] += 1
         return gid[0]
 
+    if opts.get('n_degrees') and 'statmech_model' in fams:
+        # ordinary column whose key the idealgas preset also defines; a falsy value (0, 0.0) is a value
+        taken.add('n_degrees')
+        zero = rng.choice([[0], [0.0], [0, 0.0, 0, 1, 2, 3]])
+        cols.append(_Col(H('n_degrees'), 'ordinary', lambda rng, zero=zero: rng.choice(zero), group()))
     if 'ordinary' in fams:
         for _ in range(opts.get('n_ord', rng.randint(1, 8))):
             name = _ident(rng, taken, _ORD_POOL, allow_dot=True)
@@ -267,7 +354,8 @@ def _build(rng, nrows, fams, opts=None):
         for _ in range(n):
             h = {'plain': 'vib_wavenumber', 'same': same}.get(style) or _pad(rng, 'vib_wavenumber', 0.5)
             cols.append(_Col(h, 'vib_wavenumber',
-                             lambda rng: _num(rng, rng.choice(['float', 'float', 'float', 'int', 'zero', 'neg'])),
+                             lambda rng: _num(rng, rng.choice(['float', 'float', 'float', 'int', 'zero', 'neg', 'nearint',
+                                                               'nearint', 'bigfrac'])),
                              g_v))
     if 'rot_temperature' in fams:
         g_r = group()
@@ -282,7 +370,8 @@ def _build(rng, nrows, fams, opts=None):
                 idx.sort()
             for i in idx:
                 cols.append(_Col(H('nasa.%s.%d' % (which, i)), 'nasa',
-                                 lambda rng: _num(rng, rng.choice(['float', 'small', 'small', 'neg', 'zero', 'int'])),
+                                 lambda rng: _num(rng, rng.choice(['float', 'small', 'small', 'neg', 'zero', 'int', 'nearint',
+                                                                   'bigfrac'])),
                                  g_n))
     if 'list' in fams:
         for _ in range(rng.randint(1, 3)):
@@ -430,6 +519,8 @@ def generate(rng, tier):
         fams.append('ordinary')
     opts = {}
     if 'statmech_model' in fams and rng.random() < 0.5:
+        opts['n_degrees'] = True
+    if 'statmech_model' in fams and rng.random() < 0.5:
         # explicit columns that compete with a preset
         for h in rng.sample(list(ref.MODE_HEADERS), rng.randint(1, 3)):
             if h not in fams:
@@ -498,6 +589,46 @@ def directed(tier):
               'rows': [[3000.5, ' CH4 ', 1500, 'a', 1300.25, 'b', None, ' CH4', 'c', 200],
                        [None, 'H2', 4401.2, None, None, 'only', None, 'H2', None, None],
                        [1, 'NH3', 2, 3, 3, 2, 4, 'NH3', 1, 5]]})
+    # 8/9: a zero-valued explicit n_degrees (falsy, but a value) left / right of every preset
+    rows = []
+    for k, p in enumerate(PRESET_NAMES):
+        rows.append([0 if k % 2 else 0.0, _CAMEL[p], p + '_zero'])
+        rows.append([0.0 if k % 2 else 0, p, p + '_zero2'])
+        rows.append([None, p, p + '_preset_only'])
+    rows.append([0, None, 'no_preset'])
+    D.append({'sheet': 'zero_left', 'decoys_before': 0, 'decoys_after': 0, 'comment': ['c'] * 3,
+              'headers': ['n_degrees', 'statmech_model', 'name'], 'rows': rows})
+    D.append({'sheet': 'zero_right', 'decoys_before': 0, 'decoys_after': 0, 'comment': None,
+              'headers': ['name', 'statmech_model', ' n_degrees '], 'rows': [[r[2], r[1], r[0]] for r in rows]})
+    # 10: every case-insensitive name in odd letter case
+    hdr = ['id'] + list(ref.MODE_HEADERS) + ['statmech_model']
+    rows = []
+    odd = ['EMPTYMODE', 'Emptymode', 'emptyMode', 'eMPTYmODE', ' EmptyMODE ']
+    for k, v in enumerate(odd):
+        for j in range(len(ref.MODE_HEADERS)):
+            r = [10 * k + j] + [None] * (len(ref.MODE_HEADERS) + 1)
+            r[1 + j] = v
+            rows.append(r)
+        rows.append([100 + k] + [odd[(k + j) % len(odd)] for j in range(len(ref.MODE_HEADERS))] + [None])
+    for k, v in enumerate(['IDEALGAS', 'idealGas', 'HARMONIC', 'harMonic', 'ELECTRONIC', 'eLECTRONIC', 'PLACEHOLDER',
+                           'PlaceHolder', 'CONSTANT', 'cONSTANT']):
+        rows.append([200 + k] + [None] * len(ref.MODE_HEADERS) + [v])
+    D.append({'sheet': 'letter case', 'decoys_before': 0, 'decoys_after': 0, 'comment': None,
+              'headers': hdr, 'rows': rows})
+    # 11: floats next to an integer and large numbers with a fraction are values, not round-off noise
+    hdr = ['energy', 'vib_wavenumber', 'vib_wavenumber', 'list.xs', 'list.xs', 'dict.d.a', 'nasa.a_low.0',
+           'nasa.a_high.5', 'T_ref']
+    near = [1500.0000000004, 1500.0 * (1 + 2.0 ** -40), 3000.0 - 3000.0 * 1e-10, 7.0 + 7.0 * 3e-10,
+            298.0 + 298.0 * 1e-12, 1.0000000001, -4401.0 * (1 + 1e-10), 999999.9999]
+    big = [4167824531.75, 500000000.5, 987654321012.25, -5e8 - 0.75]
+    rows = []
+    for k in range(len(near)):
+        a, b = near[k], big[k % len(big)]
+        a, b, c = _x16(a), _x16(b), _x16(near[(k + 1) % len(near)])
+        rows.append([a, b, a, a, b, b, a, b, c])
+        rows.append([b, a, None, None, a, a, b, a, None])
+    D.append({'sheet': 'near integers', 'decoys_before': 0, 'decoys_after': 0, 'comment': ['x'] * 9,
+              'headers': hdr, 'rows': rows})
     return D
 
 
@@ -630,7 +761,9 @@ def _scalar_eq(got, want):
         return False, None
     if not _is_number(got):
         return False, None
-    return _num_eq(float(got), float(want))
+    # a number cell round-trips exactly through xlsx (generated floats have <= 16 significant digits, which
+    # is what openpyxl writes): bit equality
+    return (float(got) == float(want)), 0.0
 
 
 _ERR = [0.0]
@@ -883,6 +1016,12 @@ def _classes(ctx, spec, refs):
                     ctx.cls('cell:numstr_blank' if _is_numeric_text(v.strip()) else 'cell:str_blank')
             elif v == 0:
                 ctx.cls('cell:zero')
+            elif _is_near_int(v):
+                ctx.cls('num:near_integer:' + f)
+            elif _is_big_frac(v):
+                ctx.cls('num:big_fraction:' + f)
+            if isinstance(v, str) and _is_numeric_text(v.strip()) and _is_near_int(float(v)):
+                ctx.cls('num:near_integer:numstr')
             if f == 'statmech_model':
                 ctx.cls('preset:' + v.strip().lower())
                 pj = j
@@ -890,10 +1029,20 @@ def _classes(ctx, spec, refs):
                     if vv is not None and (fams[jj][0] in ref.MODE_HEADERS or headers[jj].strip() == 'n_degrees'):
                         key = headers[jj].strip()
                         if key in ref.PRESETS[v.strip().lower()]:
-                            ctx.cls('preset:explicit_left' if jj < pj else 'preset:explicit_right')
+                            side = 'preset:explicit_left' if jj < pj else 'preset:explicit_right'
+                            ctx.cls(side)
+                            if not isinstance(vv, str) and vv == 0:
+                                ctx.cls(side + '_zero')
+                        elif not isinstance(vv, str) and vv == 0:
+                            # zero-valued n_degrees next to a preset that does not define it
+                            ctx.cls('preset:%s:zero_n_degrees' % v.strip().lower())
+                if v.strip() not in (v.strip().lower(), _CAMEL[v.strip().lower()]):
+                    ctx.cls('name:random_case', 'name:random_case:statmech_model')
             if f in ref.MODE_HEADERS:
                 name = v.strip()
                 ctx.cls('mode:%s:%s' % (f, 'EmptyMode' if name.lower() == 'emptymode' else name))
+                if name.lower() == 'emptymode' and name not in ('EmptyMode', 'emptymode'):
+                    ctx.cls('name:random_case', 'name:random_case:' + f)
         for f in row_fams:
             ctx.cls('fam:' + f)
             if f != 'ordinary':
